@@ -102,11 +102,12 @@ PROPS["C06"] = {
     "level": "exploration",
     "engines": [
         {"bin": "hv", "args": ["c06"]},
+        {"bin": "hvt", "args": ["c06"], "tag": "tokio"},
     ],
     "min": {"quick": {"evaluations": 50_000, "files_served_intact": 1000, "redirects_301": 50, "availability_requests": 1000},
             "thorough": {"evaluations": 1_000_000}},
     "assumptions": [],
-    "level_text": "The three real handlers are called in-process on generated directory trees with uniquely tagged file contents and canary files outside the root, for every file's own path and for all compositions of traversal/encoding segments to depth 3 (4 thorough); each response is judged by the confinement rule and by an independent resolver of the documented lookup rules.",
+    "level_text": "The three real handlers (threaded runtime) and the tokio runtime's serve_dir / serve_as_file_path are called in-process on generated directory trees with uniquely tagged file contents (a few bytes to 5 MiB) and canary files outside the root, for every file's own path and for all compositions of traversal/encoding segments to depth 3 (4 thorough); each response is judged by the confinement rule and by an independent resolver of the documented lookup rules.",
     "level_note": "Trusted: the harness's resolver (uses the file system as judge) and MIME table; no symlinks.",
     "technique": "runtime monitoring: canary/tag confinement monitor + reference-resolver oracle over bounded-exhaustive request paths",
 }
@@ -202,7 +203,7 @@ PROPS["C04"] = {
             "thorough": {"apps": 3800}},
     "assumptions": [],
     "level_text": "Generated applications are run as real Apps on loopback (threaded and tokio); every request's answering handler (identity in the response body, or on the raw stream for WebSocket upgrades) is compared with a reference router, and each request is repeated with a different method, query and extra headers, which must not change the choice.",
-    "level_note": "Trusted: the reference router in hvcommon::routelab using the repository's wildcard_match as predicate (the matcher itself is C05's subject).",
+    "level_note": "Trusted: the reference router in hvcommon::routelab with an independent dynamic-programming glob matcher as predicate (the same oracle C05 uses).",
     "technique": "runtime monitoring: reference-model oracle (router) over generated configurations and requests; metamorphic invariance check",
 }
 
